@@ -863,6 +863,35 @@ def history_round(rep, r, tier):
                 bad = 'history %s raised %r' % (h, e)
             if bad:
                 rep.failure(bad, {'tag': 'history', 'suite': 'history', 'series': series, 'history': h, 'add_order': perm})
+        # queries *between* the additions: what was asked of a partly filled stack (answered or refused) must not show later
+        for trial in range(2):
+            perm = list(range(nfiles))
+            if trial:
+                r.shuffle(perm)
+            asked = []
+
+            def between(st, asked=asked):
+                if r.random() < 0.5:
+                    q = r.choice(['get_shape', 'get_shape', 'get_data', 'get_affine'])
+                    asked.append((len(st._files_info), q))
+                    try:
+                        getattr(st, q)()
+                    except Exception:
+                        pass
+            bad = None
+            try:
+                st, _ = G.new_stack(series, perm, between=between)
+                rep.evaluations += 1
+                rep.count('history/interleaved')
+                rep.nontriv([ci, 'interleaved', perm, asked])
+                a = r.choice(args)
+                d = nii_digest(quiet(st.to_nifti, *a))
+                if d != ref[a]:
+                    bad = 'to_nifti%r of a stack that was queried while it was filled (add order %s, queries after n files: %s) differs from a fresh stack' % (a, perm, asked)
+            except Exception as e:
+                bad = 'a stack that was queried while it was filled (add order %s, queries after n files: %s) raised %r' % (perm, asked, e)
+            if bad:
+                rep.failure(bad, {'tag': 'history:interleaved', 'suite': 'history', 'series': series, 'add_order': perm, 'asked': asked})
 
 
 # ------------------------------------------------------------------ correspondence with the Lean stack model
